@@ -145,6 +145,8 @@ Definition look_ok (kept : N) (U seen : list block) (qh qi : list N) (mon : fin_
 Definition last_new (acc : N) (evs : list event) : N :=
   fold_left (fun a e => match estep e with SNew | SNewIrr => bid (eblk e) | _ => a end) evs acc.
 
+(* disc: discovery mode (no LIB configured).  The first finality announcement of such a stream ESTABLISHES the LIB
+   (SetLIB, which does not purge): it is not a "LIB move", the bound is demanded from the next move on *)
 Fixpoint c18_follow (disc : bool) (kept : N) (lib : N) (root : ref) (U : list block) (qh qi : list N)
          (mon : fin_mon) (lastnew : N) (seen : list block) (h : list block) (os : list obs) : bool :=
   match h, os with
@@ -153,9 +155,8 @@ Fixpoint c18_follow (disc : bool) (kept : N) (lib : N) (root : ref) (U : list bl
       | None => false
       | Some mon' =>
           let seen' := b :: seen in
-          (* a LIB MOVE = a finality announcement after which the last final block is another ref than before
-             (the root announcement of includeInitialLIB moves nothing); the first finality announcement of a
-             discovery-mode stream establishes the LIB through SetLIB, which does not purge: not a move either *)
+          (* a LIB MOVE: a finality announcement after which the last final block is another block than before
+             (the announcement of the starting LIB block itself, inclusive mode, moves nothing and purges nothing) *)
           let moved := existsb (fun e => match estep e with SIrr => true | _ => false end) (o_events o)
                        && negb (ref_eqb (fm_last mon) (fm_last mon'))
                        && negb (disc && negb (fm_any mon)) in
